@@ -6,7 +6,7 @@
        source_hash_ignores_xattrs: outside plz-out/ no xattr is ever believed, in ANY state;
    (3) conc_sound: under ANY interleaving of the Read/Write steps of concurrent Hash calls on different
        paths, every call writes exactly the bytes the sequential call writes. *)
-From PlzV Require Import Base.Harness Base.StrFacts Model.C09 Gen.PathHashProg Proof.C09 Proof.C09_Memo Model.C09_Rec.
+From PlzV Require Import Base.Harness Base.StrFacts Model.C09 Gen.PathHashProg Proof.C09 Model.C09_Rec.
 From Coq Require Import List Bool Lia.
 
 (* ---- ties to what gotrans read off hash.go for this follow-up ---- *)
@@ -129,10 +129,13 @@ Proof.
 Qed.
 
 (* ================= (2) recorded hashes ================= *)
+(* (restated here so that this file does not wait for Proof/C09_Memo.v) *)
+Lemma raget_aset {A} (m : amap A) k o k' : aget (aset m k o) k' = if str_eqb k k' then o else aget m k'.
+Proof. unfold aget, aset. cbn [find fst]. destruct (str_eqb k k'); reflexivity. Qed.
 Lemma mget_mset g k x k' : mget (mset g k x) k' = if str_eqb k k' then x else mget g k'.
-Proof. unfold mget, mset. cbn [gm]. rewrite aget_aset. destruct (str_eqb k k'); reflexivity. Qed.
+Proof. unfold mget, mset. cbn [gm]. rewrite raget_aset. destruct (str_eqb k k'); reflexivity. Qed.
 Lemma xget_xset g k x k' : xget (xset g k x) k' = if str_eqb k k' then x else xget g k'.
-Proof. unfold xget, xset. cbn [gx]. rewrite aget_aset. destruct (str_eqb k k'); reflexivity. Qed.
+Proof. unfold xget, xset. cbn [gx]. rewrite raget_aset. destruct (str_eqb k k'); reflexivity. Qed.
 Lemma mget_xset g k x k' : mget (xset g k x) k' = mget g k'.
 Proof. reflexivity. Qed.
 Lemma xget_mset g k x k' : xget (mset g k x) k' = xget g k'.
@@ -199,7 +202,7 @@ Proof.
   - eapply mgood_ext; eauto.
 Qed.
 
-Ltac rupd := repeat (rewrite aget_aset in * || rewrite mget_mset in * || rewrite xget_xset in *
+Ltac rupd := repeat (rewrite raget_aset in * || rewrite mget_mset in * || rewrite xget_xset in *
                      || rewrite mget_xset in * || rewrite xget_mset in * || rewrite xget_mdemote in * ).
 Ltac rkeys :=
   repeat match goal with
@@ -218,7 +221,7 @@ Definition ranswer_ok (root : str) (st : rstate) (o : rop) (r : robs) : Prop :=
 
 Lemma xattr_of_aset f k e k' :
   xattr_of (aset f k e) k' = if str_eqb k k' then match e with Some (_, x) => x | None => None end else xattr_of f k'.
-Proof. unfold xattr_of. rewrite aget_aset. destruct (str_eqb k k'); reflexivity. Qed.
+Proof. unfold xattr_of. rewrite raget_aset. destruct (str_eqb k k'); reflexivity. Qed.
 
 (* ---- world operations ---- *)
 Lemma world_inv_write st g p t :
@@ -227,10 +230,10 @@ Lemma world_inv_write st g p t :
 Proof.
   intros HI k. destruct (HI k) as [Hm Hx]. split.
   - rewrite mget_xset. eapply (mgood_demote st); [reflexivity| |exact Hm].
-    intros Hne. cbn [rfiles]. rewrite aget_aset. destruct (str_eqb_spec p k); congruence.
+    intros Hne. cbn [rfiles]. rewrite raget_aset. destruct (str_eqb_spec p k); congruence.
   - rewrite xget_xset, xget_mdemote. destruct (str_eqb_spec p k) as [->|Hne].
     + cbn [xgood rfiles]. rewrite xattr_of_aset, str_eqb_refl. reflexivity.
-    + eapply xgood_ext; [|exact Hx]. cbn [rfiles]. rewrite aget_aset. destruct (str_eqb_spec p k); congruence.
+    + eapply xgood_ext; [|exact Hx]. cbn [rfiles]. rewrite raget_aset. destruct (str_eqb_spec p k); congruence.
 Qed.
 
 Lemma world_inv_remove st g p :
@@ -239,10 +242,10 @@ Lemma world_inv_remove st g p :
 Proof.
   intros HI k. destruct (HI k) as [Hm Hx]. split.
   - rewrite mget_xset. eapply (mgood_demote st); [reflexivity| |exact Hm].
-    intros Hne. cbn [rfiles]. rewrite aget_aset. destruct (str_eqb_spec p k); congruence.
+    intros Hne. cbn [rfiles]. rewrite raget_aset. destruct (str_eqb_spec p k); congruence.
   - rewrite xget_xset, xget_mdemote. destruct (str_eqb_spec p k) as [->|Hne].
     + cbn [xgood rfiles]. rewrite xattr_of_aset, str_eqb_refl. reflexivity.
-    + eapply xgood_ext; [|exact Hx]. cbn [rfiles]. rewrite aget_aset. destruct (str_eqb_spec p k); congruence.
+    + eapply xgood_ext; [|exact Hx]. cbn [rfiles]. rewrite raget_aset. destruct (str_eqb_spec p k); congruence.
 Qed.
 
 Lemma world_inv_edit st g p t t0 x :
@@ -253,7 +256,7 @@ Proof.
   intros HI Hp k. destruct (HI k) as [Hm Hx]. cbn zeta. split.
   - assert (Hd : mgood (RState (rmemo st) (rx st) (aset (rfiles st) p (Some (t, x)))) (mget (mdemote g p) k) k).
     { eapply (mgood_demote st); [reflexivity| |exact Hm].
-      intros Hne. cbn [rfiles]. rewrite aget_aset. destruct (str_eqb_spec p k); congruence. }
+      intros Hne. cbn [rfiles]. rewrite raget_aset. destruct (str_eqb_spec p k); congruence. }
     destruct (xget g p); rewrite ?mget_xset; exact Hd.
   - destruct (str_eqb_spec p k) as [->|Hne].
     + assert (Hxa : xattr_of (aset (rfiles st) k (Some (t, x))) k = xattr_of (rfiles st) k).
@@ -262,7 +265,7 @@ Proof.
         cbn [xgood rfiles] in *; rewrite ?Hxa; auto.
       destruct Hx as (v & H & _). exists v. exact H.
     + assert (Hk : xgood (RState (rmemo st) (rx st) (aset (rfiles st) p (Some (t, x)))) (xget g k) k).
-      { eapply xgood_ext; [|exact Hx]. cbn [rfiles]. rewrite aget_aset. destruct (str_eqb_spec p k); congruence. }
+      { eapply xgood_ext; [|exact Hx]. cbn [rfiles]. rewrite raget_aset. destruct (str_eqb_spec p k); congruence. }
       destruct (xget g p); rewrite ?xget_xset, ?xget_mdemote; try exact Hk.
       destruct (str_eqb_spec p k); [congruence|exact Hk].
 Qed.
@@ -279,10 +282,10 @@ Proof.
   intros HI Ha Hab k. destruct (HI k) as [Hm Hx]. split.
   - rewrite !mget_xset.
     eapply (mgood_demote (RState (rmemo st) (rx st) (aset (rfiles st) a None))); [reflexivity| |].
-    + intros Hne. cbn [rfiles]. rewrite !aget_aset. destruct (str_eqb_spec a k); [reflexivity|].
+    + intros Hne. cbn [rfiles]. rewrite !raget_aset. destruct (str_eqb_spec a k); [reflexivity|].
       destruct (str_eqb_spec b k); congruence.
     + eapply (mgood_demote st); [reflexivity| |exact Hm].
-      intros Hne. cbn [rfiles]. rewrite aget_aset. destruct (str_eqb_spec a k); congruence.
+      intros Hne. cbn [rfiles]. rewrite raget_aset. destruct (str_eqb_spec a k); congruence.
   - rewrite !xget_xset, !xget_mdemote. destruct (str_eqb_spec a k) as [->|Hak].
     + cbn [xgood rfiles]. rewrite xattr_of_aset, str_eqb_refl. reflexivity.
     + destruct (str_eqb_spec b k) as [->|Hbk].
@@ -292,9 +295,9 @@ Proof.
           unfold xattr_of. rewrite Ha. reflexivity. }
         destruct (xget g a); cbn [xgood rfiles] in *; rewrite Hv; auto.
         destruct Hxa as (v & H1 & H2). exists v. split; [exact H1|].
-        eapply true_stream_moved; [|exact H2]. rewrite !aget_aset, str_eqb_refl.
+        eapply true_stream_moved; [|exact H2]. rewrite !raget_aset, str_eqb_refl.
         destruct (str_eqb_spec a k); [congruence|]. symmetry. exact Ha.
-      * eapply xgood_ext; [|exact Hx]. cbn [rfiles]. rewrite !aget_aset.
+      * eapply xgood_ext; [|exact Hx]. cbn [rfiles]. rewrite !raget_aset.
         destruct (str_eqb_spec a k); [congruence|]. destruct (str_eqb_spec b k); congruence.
 Qed.
 
@@ -304,15 +307,15 @@ Lemma world_inv_copy st g a b e :
 Proof.
   intros HI Ha Hab k. destruct (HI k) as [Hm Hx]. split.
   - rewrite mget_xset. eapply (mgood_demote st); [reflexivity| |exact Hm].
-    intros Hne. cbn [rfiles]. rewrite aget_aset. destruct (str_eqb_spec b k); congruence.
+    intros Hne. cbn [rfiles]. rewrite raget_aset. destruct (str_eqb_spec b k); congruence.
   - rewrite xget_xset, xget_mdemote. destruct (str_eqb_spec b k) as [->|Hbk].
     + destruct (HI a) as [_ Hxa]. destruct e as [t x].
       assert (Hv : xattr_of (aset (rfiles st) k (Some (t, x))) k = xattr_of (rfiles st) a).
       { rewrite xattr_of_aset, str_eqb_refl. unfold xattr_of. rewrite Ha. reflexivity. }
       destruct (xget g a); cbn [xgood rfiles] in *; rewrite Hv; auto.
       destruct Hxa as (v & H1 & H2). exists v. split; [exact H1|].
-      eapply true_stream_moved; [|exact H2]. rewrite aget_aset, str_eqb_refl. symmetry. exact Ha.
-    + eapply xgood_ext; [|exact Hx]. cbn [rfiles]. rewrite aget_aset. destruct (str_eqb_spec b k); congruence.
+      eapply true_stream_moved; [|exact H2]. rewrite raget_aset, str_eqb_refl. symmetry. exact Ha.
+    + eapply xgood_ext; [|exact Hx]. cbn [rfiles]. rewrite raget_aset. destruct (str_eqb_spec b k); congruence.
 Qed.
 
 Lemma world_inv_newproc st g x : RInv st g -> RInv (RState [] x (rfiles st)) (RGhost [] (gx g)).
@@ -348,7 +351,7 @@ Proof.
   intros Ef. unfold computed. destruct (to_node t) as [n|] eqn:En.
   - rewrite (fstream_readable t n En). cbn [fst snd rfiles answer_at].
     destruct (store && xf && has_prefix xattr_store_prefix k0 && xattr_storable t).
-    + exists t, (Some (stream n)), n. rewrite aget_aset, str_eqb_refl. auto.
+    + exists t, (Some (stream n)), n. rewrite raget_aset, str_eqb_refl. auto.
     + exists t, x, n. auto.
   - pose proof (fstream_unreadable t En) as Hs. destruct (fstream t) as [b ok]. cbn [snd] in Hs. subst ok.
     cbn [fst snd rfiles answer_at]. exists t, x. auto.
@@ -368,19 +371,19 @@ Proof.
     + intros k. destruct (HI k) as [Hm Hx]. rewrite mget_xset, mget_mset, xget_xset, xget_mset.
       destruct (str_eqb_spec k0 k) as [<-|Hne].
       * split; cbn [mgood xgood rmemo rfiles].
-        -- exists (stream n). rewrite aget_aset, str_eqb_refl. split; [reflexivity|].
-           exists t, (Some (stream n)), n. rewrite aget_aset, str_eqb_refl. auto.
+        -- exists (stream n). rewrite raget_aset, str_eqb_refl. split; [reflexivity|].
+           exists t, (Some (stream n)), n. rewrite raget_aset, str_eqb_refl. auto.
         -- exists (stream n). rewrite xattr_of_aset, str_eqb_refl. split; [reflexivity|].
-           exists t, (Some (stream n)), n. rewrite aget_aset, str_eqb_refl. auto.
+           exists t, (Some (stream n)), n. rewrite raget_aset, str_eqb_refl. auto.
       * split.
-        -- eapply mgood_ext; [| |exact Hm]; cbn [rmemo rfiles]; rewrite aget_aset;
+        -- eapply mgood_ext; [| |exact Hm]; cbn [rmemo rfiles]; rewrite raget_aset;
              destruct (str_eqb_spec k0 k); congruence.
-        -- eapply xgood_ext; [|exact Hx]. cbn [rfiles]. rewrite aget_aset. destruct (str_eqb_spec k0 k); congruence.
+        -- eapply xgood_ext; [|exact Hx]. cbn [rfiles]. rewrite raget_aset. destruct (str_eqb_spec k0 k); congruence.
     + intros k. destruct (HI k) as [Hm Hx]. rewrite mget_mset, xget_mset.
       destruct (str_eqb_spec k0 k) as [<-|Hne].
       * split; [|exact Hx]. cbn [mgood rmemo rfiles].
-        exists (stream n). rewrite aget_aset, str_eqb_refl. split; [reflexivity|]. exists t, x, n. auto.
-      * split; [|exact Hx]. eapply mgood_ext; [| |exact Hm]; cbn [rmemo rfiles]; rewrite ?aget_aset; try reflexivity.
+        exists (stream n). rewrite raget_aset, str_eqb_refl. split; [reflexivity|]. exists t, x, n. auto.
+      * split; [|exact Hx]. eapply mgood_ext; [| |exact Hm]; cbn [rmemo rfiles]; rewrite ?raget_aset; try reflexivity.
         destruct (str_eqb_spec k0 k); congruence.
   - pose proof (fstream_unreadable t En) as Hs. destruct (fstream t) as [b ok]. cbn [snd] in Hs. subst ok.
     rewrite gen_memo_guard. cbn [fst]. exact HI.
@@ -422,8 +425,8 @@ Proof.
         cbn [fst snd rfiles answer_at]. split; [|exact Hts].
         intros k. destruct (HI k) as [Hm Hx]. rewrite mget_mset, xget_mset.
         destruct (str_eqb_spec k0 k) as [<-|Hne].
-        -- split; [|exact Hx]. cbn [mgood rmemo rfiles]. exists v. rewrite aget_aset, str_eqb_refl. auto.
-        -- split; [|exact Hx]. eapply mgood_ext; [| |exact Hm]; cbn [rmemo rfiles]; rewrite ?aget_aset; try reflexivity.
+        -- split; [|exact Hx]. cbn [mgood rmemo rfiles]. exists v. rewrite raget_aset, str_eqb_refl. auto.
+        -- split; [|exact Hx]. eapply mgood_ext; [| |exact Hm]; cbn [rmemo rfiles]; rewrite ?raget_aset; try reflexivity.
            destruct (str_eqb_spec k0 k); congruence.
     + (* a vouched entry *)
       destruct Hm0 as (v & Hv & Hts). rewrite Hv. cbn [fst snd rfiles answer_at]. split; [exact HI|exact Hts].
@@ -513,7 +516,7 @@ Proof.
   { intros t x Ef. split; [eapply computed_answer; eauto|]. intros k. unfold computed.
     destruct (fstream t) as [b ok]. destruct ok; cbn [fst rfiles]; [|reflexivity].
     destruct (store && xf && has_prefix xattr_store_prefix k0 && xattr_storable t); [|reflexivity].
-    rewrite aget_aset. destruct (str_eqb_spec k0 k) as [<-|]; [|reflexivity]. rewrite Ef. reflexivity. }
+    rewrite raget_aset. destruct (str_eqb_spec k0 k) as [<-|]; [|reflexivity]. rewrite Ef. reflexivity. }
   assert (Hmiss : aget f k0 = None ->
             answer_at (rfiles (fst (RState m xf f, RMissing))) k0 (snd (RState m xf f, RMissing))
             /\ forall k, option_map fst (aget (rfiles (fst (RState m xf f, RMissing))) k) = option_map fst (aget f k)).
